@@ -80,7 +80,8 @@ def run(ctx):
     exe = A.build_driver(ctx)
     lines, nsmall = gen(ctx)
     ctx.log('design step passed; driver built; %d lists (%d exhaustive small-universe)' % (len(lines), nsmall))
-    outs = A.run_lines(exe, lines)
+    keep, outs = A.run_checked(ctx, exe, lines)
+    lines = [lines[i] for i in keep]
     prej, irej = ucheck.conformance(ctx, os.path.join(A.SPEC, 'Conf_IntRangeAcl.tla'), os.path.join(A.SPEC, 'Conf_IntRangeAcl.cfg'), outs, 'intrange')
     pairs = sum(len(o['probes']) for o in outs)
     ctx.log('TLC evaluated %d lists / %d (list, probe) pairs: P-rejected lists %d, I-rejected %d' % (len(outs), pairs, len(prej), len(irej)))
